@@ -3,6 +3,7 @@ package options
 import (
 	"bufio"
 	"errors"
+	"fmt"
 	"io"
 	"os"
 	"time"
@@ -99,8 +100,14 @@ func loadFromConfigFile(o *Options, r io.Reader) error {
 	return gcfg.ReadInto(o, r)
 }
 
+// MaxAllowedDepth is the largest accepted resolve depth: the resolver recurses once per
+// level, and on a cyclic database it always reaches the limit
+const MaxAllowedDepth = 10000
+
 func validateOptions(c *cli.Context, o *Options) error {
-	// TODO: validate options
+	if o.ResolverConfig.MaxDepth > MaxAllowedDepth {
+		return fmt.Errorf("resolve depth %d is too large (maximum %d)", o.ResolverConfig.MaxDepth, MaxAllowedDepth)
+	}
 	return nil
 }
 
